@@ -588,3 +588,56 @@ func ruleCompactIndex(c *Ctx, r *R) {
 		r.undecided("unresolved:sites", "-", "UNRESOLVED: no filter-and-truncate loop found (JSON.stringify's replacer array is one)")
 	}
 }
+
+func init() {
+	register(&Rule{ID: "GUARD-node-index", Props: []string{"C02"}, Min: 1,
+		Doc: "G: the lists of a compiled or parsed program (statement lists, argument lists, declaration lists - slices whose elements are nodes of the compiled tree or of the AST) have whatever length the script text gave them, including zero (a source that is only a comment). In package otto every constant index into such a slice is dominated by a test implying that length; otherwise an entry point that picks `program.body[0]` panics with index out of range on the empty program (`vm.Call(\"//\", nil)`)",
+		Run: ruleGuardNodeIndex})
+}
+
+func ruleGuardNodeIndex(c *Ctx, r *R) {
+	isNodeSlice := func(t types.Type) bool {
+		sl, ok := t.Underlying().(*types.Slice)
+		if !ok {
+			return false
+		}
+		e := sl.Elem()
+		if p, ok := e.(*types.Pointer); ok {
+			e = p.Elem()
+		}
+		nt, ok := e.(*types.Named)
+		if !ok || nt.Obj().Pkg() == nil {
+			return false
+		}
+		path, name := nt.Obj().Pkg().Path(), nt.Obj().Name()
+		if path == ottoPath && strings.HasPrefix(name, "node") {
+			return true
+		}
+		return path == ottoPath+"/ast"
+	}
+	n := 0
+	for _, fn := range c.AllSrcFuncs("") {
+		ord := 0
+		for _, b := range fn.Blocks {
+			for _, ins := range b.Instrs {
+				ia, ok := ins.(*ssa.IndexAddr)
+				if !ok || !isNodeSlice(ia.X.Type()) {
+					continue
+				}
+				k, isC := constInt(ia.Index)
+				if !isC {
+					continue
+				}
+				n++
+				ord++
+				key := fmt.Sprintf("%s:%s[%d]#%d", ssaFuncName(fn), typeStr(ia.X.Type()), k, ord)
+				have := minLenAt(fn, ia.X, ins)
+				r.check(have >= k+1, key, c.Pos(instrPos(ins)), fmt.Sprintf("dominated by a test implying len >= %d", have),
+					fmt.Sprintf("%s takes element %d of a %s with no dominating test that the list is that long (best implied length %d): the list has the length the script text gave it, and a source without statements (`//`, the empty string) makes this an index-out-of-range panic that escapes the public API", ssaFuncName(fn), k, typeStr(ia.X.Type()), have))
+			}
+		}
+	}
+	if n == 0 {
+		r.undecided("unresolved:sites", "-", "UNRESOLVED: no constant index into a node list found in package otto (Otto.Call has one)")
+	}
+}
